@@ -32,6 +32,28 @@ def gen_rounds(ctx, n, seed, maxops):
     return rounds
 
 
+def race_rounds(ctx, two):
+    """Forced check-then-act schedules enumerated by TLC from CondWriteRace.tla (one initial state per round)."""
+    r = ctx.tlc("CondWriteRace", "CondWrite.Race.cfg", workers=1, timeout=600, count_mc=False,
+                subst={"TwoRacers": "TRUE" if two else "FALSE"})
+    rounds = [p["phases"] for p in r.printed if isinstance(p, dict) and "phases" in p]
+    if len(rounds) < 100:
+        raise vlib.Infra("race round enumeration produced %d rounds (%s)\n%s" % (len(rounds), r.outcome, r.output[-1500:]))
+    return rounds
+
+
+def race_filter(rounds, prop):
+    """C07 keeps rounds whose hold phase has a conditional put/delete, C12 those with an append."""
+    out = []
+    for ph in rounds:
+        ops = [o["op"] for o in ph[2]["ops"]]
+        if prop == "C07" and any(o["cond"] != "none" for o in ops):
+            out.append(ph)
+        if prop == "C12" and any(o["kind"] == "Append" for o in ops):
+            out.append(ph)
+    return out
+
+
 def bias(rounds, prop):
     """C12 rounds keep appends/gets/deletes, C07 rounds keep conditional puts/deletes (filtering generated calls only)."""
     out = []
@@ -86,7 +108,16 @@ def run(ctx):
                 k = o["op"]["kind"] + ":" + o["op"]["cond"] + (":off" if o["op"]["off"] >= 0 else "")
                 kinds[k] = kinds.get(k, 0) + 1
         rf, tf = ctx.path("rounds-%s.ndjson" % stack), ctx.path("trace-%s.ndjson" % stack)
-        vlib.write_ndjson(rf, [{"id": i + 1, "ops": ops} for i, ops in enumerate(rounds)])
+        recs = [{"id": i + 1, "ops": ops} for i, ops in enumerate(rounds)]
+        forced = race_filter(race_rounds(ctx, two=(ctx.tier == "thorough" and si == 0)), ctx.prop)
+        for ph in forced:
+            for o in ph[2]["ops"]:
+                k = o["op"]["kind"] + ":" + o["op"]["cond"] + (":off" if o["op"]["off"] >= 0 else "")
+                kinds[k] = kinds.get(k, 0) + 1
+        recs += [{"id": len(recs) + i + 1, "phases": ph} for i, ph in enumerate(forced)]
+        ctx.extra["forced_schedule_rounds_" + stack] = len(forced)
+        vlib.write_ndjson(rf, recs)
+        rounds = rounds + [[o for p_ in ph for o in p_["ops"]] for ph in forced]
         p = ctx.run([drv, stack, ctx.path("state-" + stack), rf, tf], timeout=1800)
         ctx.log(stack, p.stdout.strip().splitlines()[-1])
         lines = vlib.read_ndjson(tf)
